@@ -17,5 +17,6 @@ CONSTANTS
   AtomicGossip = FALSE
   AtomicExec = FALSE
   MaxDrop = 0
+  DropKinds = {}
 INVARIANT AtEnd
 CHECK_DEADLOCK FALSE
